@@ -282,7 +282,16 @@ def check(ctx, case):
     text = str(res2)
     try:
         back = SSCSimfile(string=text)
-        ctx.expect(back == res2 and ssc_state(back) == first_state, "reload:differs", text=text[:300])
+        if all(not c or list(c)[-1] in ("NOTES", "NOTES2") for c in res2.charts):
+            ctx.expect(back == res2 and ssc_state(back) == first_state, "reload:differs", text=text[:300])
+        else:
+            # an SM source chart whose backing mapping was filled out of order (SMChart() + assignments, move_to_end)
+            # gives a result chart that does not end with its note data: equality then holds up to C02's
+            # "note data moved last", which is what the serializer guarantees
+            from . import c04
+
+            ctx.feat("result_chart_notes_not_last")
+            ctx.expect(c04.state(back) == c04.state(res2), "reload:differs-beyond-notes-moved-last", text=text[:300])
     except Exception as e:
         ctx.violation(f"reload:raised:{type(e).__name__}", {"exc": repr(e), "text": text[:400]})
 
